@@ -94,6 +94,32 @@ def gen_doc(kind, variant):
         text = "あいう漢字" if variant % 2 == 0 else "カタカナ字"
         raw = text.encode("utf-16-be") if "Uni" in cm else text.encode("cp932")
         pages = [b"BT /F1 12 Tf 50 700 Td <%s> Tj ET" % raw.hex().encode(), b"BT /F1 12 Tf 50 650 Td <%s> Tj ET" % raw[:4].hex().encode()]
+    elif kind == "cmapstream":
+        # two documents use the predefined CMap 90ms-RKSJ-H: one through an embedded CMap stream that carries that
+        # /CMapName and a /WMode of its own, the other by name.  Whatever the first makes of its stream dictionary must
+        # stay with that font (the predefined CMap objects are shared by everything in the process)
+        desc = W.D(Type=W.N("Font"), Subtype=W.N("CIDFontType0"), BaseFont=W.N("SharedCID"),
+                   CIDSystemInfo=W.D(Registry=b"Adobe", Ordering=b"Japan1", Supplement=2), DW=1000, DW2=[880, -900],
+                   FontDescriptor=W.D(Type=W.N("FontDescriptor"), FontName=W.N("SharedCID"), Flags=4,
+                                      FontBBox=[0, -200, 1000, 900], Ascent=800, Descent=-200))
+        objs[12] = desc
+        enc = W.N("90ms-RKSJ-H")
+        if variant % 2 == 0:
+            objs[13] = W.Stream(W.D(Type=W.N("CMap"), CMapName=W.N("90ms-RKSJ-H"), WMode=1,
+                                    CIDSystemInfo=W.D(Registry=b"Adobe", Ordering=b"Japan1", Supplement=2)),
+                                b"/CIDInit /ProcSet findresource begin 12 dict begin begincmap\n/CMapName /90ms-RKSJ-H def\n"
+                                b"/WMode 1 def\nendcmap CMapName currentdict /CMap defineresource pop end end\n")
+            enc = W.R(13)
+        objs[10] = W.D(Type=W.N("Font"), Subtype=W.N("Type0"), BaseFont=W.N("SharedCID"), Encoding=enc,
+                       DescendantFonts=[W.R(12)])
+        raw = "あいう漢字".encode("cp932")
+        pages = [b"BT /F1 12 Tf 50 700 Td <%s> Tj ET" % raw.hex().encode(), b"BT /F1 12 Tf 50 650 Td <%s> Tj ET" % raw[:4].hex().encode()]
+    elif kind == "manynames":
+        # a valid page whose content uses 70 000 distinct marked-content tags: every name met is interned for the life
+        # of the process, and what was read before (and the library's own constants) must stay what it was
+        objs[10] = W.simple_font("ManyNames")
+        tags = b"\n".join(b"/T%05d MP" % i for i in range(70000))
+        pages = [tags + b"\nBT /F1 12 Tf 50 700 Td (World %d) Tj ET" % variant]
     elif kind == "fontfile":
         # Type1 fonts that take their encoding from the embedded font program (no /Encoding): different programs
         # assign different glyphs to the same codes
@@ -305,6 +331,8 @@ def make_pool(rnd):
     pool.append(["gen", "recursiveform", rnd.randrange(2)])
     pool.append(["gen", "csnames", 0])
     pool.append(["gen", "csnames", 1])
+    pool.append(["gen", "cmapstream", 0])
+    pool.append(["gen", "cmapstream", 1])
     cv = rnd.sample(range(4), 2)
     pool.append(["gen", "crypt", cv[0]])
     pool.append(["gen", "crypt", cv[1]])
@@ -559,10 +587,25 @@ def op_strategy():
 
 def plan(tier):
     q = tier == "quick"
-    return [{"n": 60 if q else 400, "steps": 20 if q else 40} for _ in range(16 if q else 48)]
+    return [{"n": 60 if q else 400, "steps": 20 if q else 40} for _ in range(16 if q else 48)] + [{"kind": "flood"}]
+
+
+def flood_cases():
+    """Fixed histories around one document that makes the process intern 70 000 new names."""
+    pool = [["gen", "simple", 0], ["gen", "cid", 0], ["gen", "manynames", 0], ["gen", "crypt", 1]]
+    for c1 in (True, False):
+        yield {"pool": pool, "ops": [["text", 0, "default", c1], ["pages", 1, "default", True], ["text", 2, "default", c1],
+                                     ["text", 0, "default", c1], ["pages", 1, "flownone", not c1], ["xml", 3, "default", True],
+                                     ["text", 2, "default", not c1], ["xml", 0, "default", c1]]}
+    yield {"pool": pool, "ops": [["open", 0, "default", True], ["open", 1, "default", True], ["text", 2, "default", True],
+                                 ["next", 0], ["next", 1], ["next", 0], ["next", 1], ["text", 3, "default", False]]}
 
 
 def run_shard(spec, ctx):
+    if spec.get("kind") == "flood":
+        from vlib.runner import enum_search
+
+        return enum_search(ctx, flood_cases(), run_case)
     pool = make_pool(random.Random(ctx.hseed("pool")))
     strat = st.lists(op_strategy(), min_size=2, max_size=spec["steps"]).map(lambda ops: {"pool": pool, "ops": [list(o) for o in ops]})
     res = hyp_search(ctx, strat, run_case, spec["n"])
